@@ -61,6 +61,17 @@ EDITS = [
   "                        if len(alloc_cores) == cores:", "                        if len(alloc_cores) > cores:", '_alloc'),
  ('dealloc-gpu-skip', 'C20', 'raptor/worker_default.py',
   "                self._resources['gpus'][n] = 0", "                self._resources['gpus'][n] = 1", '_dealloc'),
+ ('find-no-lfs-guard', 'C01', 'agent/scheduler/continuous.py',
+  "            if lfs_per_slot > lfs_avail or mem_per_slot > mem_avail:\n                break\n", "", '_find_resources'),
+ ('find-no-gpu-share', 'C01', 'agent/scheduler/continuous.py',
+  "                        gpus_per_slot <= rpc.BUSY - gpu_occ - gpu_share:",
+  "                        gpus_per_slot <= rpc.BUSY - gpu_occ:", '_find_resources'),
+ ('find-blocked-gpu', 'C01', 'agent/scheduler/continuous.py',
+  "                    if  gpu_occ is not None and \\\n", "                    if  \\\n", '_find_resources'),
+ ('find-core-not-free', 'C01', 'agent/scheduler/continuous.py',
+  "                if core == rpc.FREE:", "                if core != rpc.BUSY:", '_find_resources'),
+ ('find-core-idx-restart', 'C01', 'agent/scheduler/continuous.py',
+  "            loop_core_idx = core_idx + 1", "            loop_core_idx = core_idx", '_find_resources'),
 ]
 
 
